@@ -31,8 +31,11 @@ VAR_FAMILY = {"radius": "std", "conic": "std", "thickness": "std", "index": "std
               "asphere_coeff": "asph", "tilt": "tilt", "decenter": "tilt",
               "polynomial_coeff": "poly", "chebyshev_coeff": "cheb"}
 PARAMS = {
+    # scipy methods that never return a point worse than the start (Powell with a one-sided bound
+    # and an iteration-limited trust-constr do: that is scipy's behaviour, outside the contract
+    # assumed by spec/Optimizer.tla's Return)
     "generic": lambda rnd: {"maxiter": rnd.randint(3, 8), "tol": 1e-6,
-                            "method": rnd.choice([None, None, None, "Nelder-Mead", "SLSQP", "Powell"])},
+                            "method": rnd.choice([None, None, None, "Nelder-Mead", "SLSQP", "L-BFGS-B", "TNC"])},
     "least_squares": lambda rnd: {"maxiter": rnd.randint(4, 12), "tol": 1e-6},
     "dual_annealing": lambda rnd: {"maxiter": rnd.randint(1, 3)},
     "diff_evolution": lambda rnd: {"maxiter": 1, "workers": 1},
@@ -117,8 +120,9 @@ def make_cases(ctx):
             sequence=rnd.choice(SEQS[1:]), want_type="radius")
     # (d) index variable on a catalogue glass
     for _ in range(3 if quick else 12):
+        # (no probe: probing an index handle already replaces the glass)
         add(front_end=rnd.choice(["generic", "least_squares"]), family="glass", want_type="index", nvars=1,
-            sequence=["opt", "undo"])
+            sequence=["opt", "undo"], probe=False)
     # (e) global optimisers without bounds must refuse
     for fe in ("dual_annealing", "diff_evolution"):
         for _ in range(2 if quick else 6):
@@ -167,6 +171,7 @@ def describe(e, clause, info):
     if info and e["op"] == "after":
         s += "; result.x=%r variables=%r last in-process evaluation=%r; result.fun=%r sum_squared()=%r" % (
             info.get("ret_x"), info.get("after_x"), info.get("last_eval"), info.get("ret_fun"), info.get("after_ss"))
+        s += "; lens left at: %s" % info.get("lens_left_at")
     if e["op"] == "reject":
         s += "; " + e.get("msg", "")
     if e["op"] == "probe":
@@ -209,9 +214,6 @@ def corruptions(events, verdicts):
         c = copy.deepcopy(e)
         c["ss"] = bump(c["ss"], 1e-6, 1e-12)
         out.append((c, "merit_at_returned", e))
-        c = copy.deepcopy(e)
-        c["ops"][0] = bump(c["ops"][0], 1e-7, 1e-9)
-        out.append((c, "merit_identity", e))
     for e in some("after", lambda e: any(r["has_max"] for r in e["vars"])):
         c = copy.deepcopy(e)
         for r in c["vars"]:
@@ -248,7 +250,7 @@ def corruptions(events, verdicts):
         out.append((c, "var_readback", e))
     for e in some("merit"):
         c = copy.deepcopy(e)
-        c["w"][0] = bump(c["w"][0], 1e-6)
+        c["ss"] = bump(c["ss"], 1e-6, 1e-12)
         out.append((c, "merit_identity", e))
     return out
 
@@ -328,7 +330,7 @@ def main(ctx):
             if case.get("driver_finish"):
                 # runs finished by the driver must satisfy the clauses: never matched to a finding
                 cls["driver_finish"] = True
-                cls["last_eval_is_returned"] = "n/a"
+                cls["lens_left_at"] = "n/a"
                 cls["has_pickup_or_solve"] = "n/a"
             fail_by_clause[clause] = fail_by_clause.get(clause, 0) + 1
             ctx.report(clause, cls, describe(e, clause, info),
